@@ -39,7 +39,7 @@ PYEOF
   local changed="generated text changed"
   cmp -s "$SCRATCH/HeapFns.before" "$HERE/lean/SCoda/Gen/HeapFns.lean" && changed="GENERATED TEXT UNCHANGED"
   local why=""
-  if [ "$res" = "FAIL(build)" ]; then why=$(grep -m1 -o 'error: [^ ]*\(HeapTie\|HeapTieL\|HeapFns\).lean:[0-9]*' "$SCRATCH/last.log" | sed 's/error: //'); fi
+  if [ "$res" = "FAIL(build)" ]; then why=$(grep -m1 -o 'error: [^ ]*\(HeapTie\|HeapTieL\|HeapTieL2\|HeapFns\).lean:[0-9]*' "$SCRATCH/last.log" | sed 's/error: //'); fi
   if [ "$res" = "FAIL(gen)" ]; then why="refused: $(tail -1 "$SCRATCH/gen.err" | cut -c1-190)"; changed="generation refused"; fi
   echo "$name: $desc"
   echo "    -> $changed; HeapTie build: $res  $why"
@@ -83,6 +83,15 @@ echo "== route (3): Bar"
 mutant b1_same_sequence elements/bar.py \
   'cpy = self\.__class__\(self\.sequence\.copy\(\),' 'cpy = self.__class__(self.sequence,' \
   "Bar.copy constructs the new bar on the SAME Sequence object"
+mutant b6_other_object elements/bar.py \
+  'cpy = self\.__class__\(self\.sequence\.copy\(\),' 'cpy = self.__class__(Sequence(),' \
+  "Bar.copy passes a different object than self.sequence.copy(): a new empty Sequence"
+mutant b7_object_in_scalar elements/bar.py \
+  'self\.default_channel = default_channel' 'self.default_channel = sequence' \
+  "Bar.__init__ stores an OBJECT in the attribute treated as a scalar outside the identity state (must be refused)"
+mutant b8_ts_channel elements/bar.py \
+  'channel=default_channel,' 'channel=0,' \
+  "the TIME_SIGNATURE message no longer takes its channel from default_channel (the oracle entry is keyed by the source text)"
 mutant b2_no_copy_of_ts elements/bar.py \
   'self\.sequence\._abs_stale = True' 'pass' \
   "Bar.__init__ does not invalidate the absolute view at the end"
@@ -95,6 +104,23 @@ mutant b4_index elements/bar.py \
 mutant b5_overwrite_alias sequences/sequence.py \
   'rel = RelativeSequence\(\)\n(\s+)for msg in messages:\n\s+rel\.add_message\(msg\)' 'rel = RelativeSequence()\n\1rel._messages = messages' \
   "overwrite_relative_messages takes over the caller's list object (must be refused: a shared list)"
+
+echo "== route (3): Track / Composition"
+mutant t1_bars_shared elements/track.py \
+  '\[bar\.copy\(\) for bar in self\.bars\]' '[bar for bar in self.bars]' \
+  "Track.copy: the new track holds the SAME bar objects"
+mutant t2_list_and_bars_shared elements/track.py \
+  'self\.__class__\(\[bar\.copy\(\) for bar in self\.bars\], self\.name\)' 'self.__class__(self.bars, self.name)' \
+  "Track.copy hands the source's own list of bars to the constructor"
+mutant t3_tracks_shared elements/composition.py \
+  '\[track\.copy\(\) for track in self\.tracks\]' '[track for track in self.tracks]' \
+  "Composition.copy: the new composition holds the SAME track objects"
+mutant t4_to_sequence_copies elements/bar.py \
+  'sequences\.append\(bar\.sequence\)' 'sequences.append(bar.sequence.copy())' \
+  "Bar.to_sequence concatenates COPIES of the bars' sequences (fresh message objects where the model shares them)"
+mutant t5_program_last elements/track.py \
+  'self\.program = program_changes\[0\]\.program' 'self.program = program_changes[1].program' \
+  "Track.__init__ takes the program of the second PROGRAM_CHANGE"
 
 echo "== original source again (restores the generated file)"
 r=$(regen_and_build "$ORIG")
